@@ -164,6 +164,18 @@ def build_case(desc):
     if omit:
         d["omit"] = omit
     atoms, info = host(d)
+    if omit:
+        # ballast chain: keeps the missing fraction below REPAIR_LIMIT (0.1)
+        # so that the repair path, not the refusal path, is exercised
+        nb = 20
+        ballast = build.build_peptide(["ALA"] * nb, chain="Z", start=301,
+                                      origin=(0.0, 40.0, 0.0))
+        atoms = atoms + ballast
+        for i in range(nb):
+            info.append({"kind": "aa", "input": "ALA",
+                         "position": "n" if i == 0 else "c" if i == nb - 1
+                         else "mid", "chain": "Z", "res_seq": 301 + i,
+                         "target": False})
     env = env_atoms(desc, atoms)
     if env is None:
         return None
